@@ -116,6 +116,12 @@ where
         &self.signature
     }
 
+    /// verification hook: per-position register (race) values
+    #[cfg(probminhash_verif)]
+    pub fn verif_registers(&self) -> Vec<f64> {
+        (0..self.m).map(|k| self.maxvaluetracker.get_value(k)).collect()
+    }
+
     /// hash data when given by an iterable WeightedSet
     pub fn hash_wset<T>(&mut self, data: &mut T)
     where
@@ -368,6 +374,12 @@ where
     /// return final signature.
     pub fn get_signature(&self) -> &Vec<D> {
         &self.signature
+    }
+
+    /// verification hook: per-position register (race) values
+    #[cfg(probminhash_verif)]
+    pub fn verif_registers(&self) -> Vec<f64> {
+        (0..self.m).map(|k| self.maxvaluetracker.get_value(k)).collect()
     }
 } // end of ProbMinHash3a
 
